@@ -695,3 +695,32 @@ def counter_entails(facts, rel, k):
   if rel == '>=':
     return lo >= k
   return False
+
+
+def callback_bodies(prog, f, expr, depth=0):
+  """The code a callback expression eventually runs, through the spellings a callback can take: a lambda, the name of a nested
+  function, a bound method `self.M`, and `functools.partial(<any of these>, bound...)`.
+  -> [(node whose text/body to inspect, [bound argument nodes])]"""
+  if depth > 3 or expr is None:
+    return []
+  if isinstance(expr, ast.Lambda):
+    out = [(expr.body, [])]
+    # a lambda that only forwards: lambda x: target(...)
+    if isinstance(expr.body, ast.Call):
+      for n, b in callback_bodies(prog, f, expr.body.func, depth + 1):
+        out.append((n, list(expr.body.args) + b))
+    return out
+  if isinstance(expr, ast.Call) and (unparse(expr.func).split('.')[-1] == 'partial') and expr.args:
+    return [(n, list(expr.args[1:]) + [k.value for k in expr.keywords] + b) for n, b in callback_bodies(prog, f, expr.args[0], depth + 1)]
+  if isinstance(expr, ast.Name):
+    g = f
+    while g is not None:
+      if expr.id in getattr(g, 'nested', {}):
+        return [(g.nested[expr.id].node, [])]
+      g = getattr(g, 'parent', None)
+    return []
+  if isinstance(expr, ast.Attribute) and isinstance(expr.value, ast.Name) and expr.value.id in ('self', 'cls') and getattr(f, 'cls', None) is not None:
+    m = prog.lookup_method(f.cls, expr.attr)
+    if m is not None:
+      return [(m.node, [])]
+  return []
